@@ -724,6 +724,18 @@ func (env *specEnv) call(e *ast.CallExpr) Val {
 			// the reference was allocated during the call (above the allocation top at entry)
 			x.regKey(keyAlloc, "Int")
 			return Val{ts: []Term{app(">", env.eval(e.Args[0]).ts[0], x.hget(env.old, keyAlloc))}}
+		case "verif_allocated":
+			// the reference (pointer, map, slice base) denotes an object that exists in the current state: it lies
+			// at or below the allocation top
+			x.regKey(keyAlloc, "Int")
+			return Val{ts: []Term{app("<=", env.eval(e.Args[0]).ts[0], x.hget(env.h(), keyAlloc))}}
+		case "verif_base":
+			// the backing array of a slice (its identity), as an integer
+			v := env.eval(e.Args[0])
+			if len(v.ts) != 4 {
+				return env.fail(e, "base() of a non-slice")
+			}
+			return Val{ts: []Term{v.ts[0]}}
 		case "verif_prev":
 			if env.prevVars == nil {
 				return env.fail(e, "prev() outside a step clause")
